@@ -9310,7 +9310,7 @@ SoPlexBase<R>::SoPlexBase()
 
 #ifdef SOPLEX_WITH_MPFR
    // set initial precision
-   BP::default_precision(_initialPrecision);
+   _setBoostedPrecisionDigits(_initialPrecision);
 
    _boostedSolver.setOutstream(spxout);
    _boostedScalerUniequi.setOutstream(spxout);
